@@ -819,7 +819,12 @@ func c05Compare(sc *C05Scenario, groups map[string]*refGroup, csv []byte, csvErr
 		}
 		if q.Limit >= 0 && len(got) > 0 {
 			var all []float64
-			for _, g := range groups {
+			for k, g := range groups {
+				// groups without samples are optional (dtail does not transmit empty
+				// sets): they count only if the result actually contains them
+				if g.samples == 0 && !seen[k] {
+					continue
+				}
 				if v, ok := q.orderKey(g); ok {
 					all = append(all, v)
 				} else {
